@@ -121,6 +121,11 @@ def _batch(run, prog, cls, method, original):
         if isinstance(ev, ir.SubStore) and ev.key == elem and ("sub", ev.cont, elem) in ir.subterms(ev.value):
             acc = ev
     if acc is None:
+        # credits collected in a list during the walk and handed out afterwards: not followed -- no verdict
+        credit = ("op", "-", mu, nxt)
+        if any(isinstance(ev, ir.Mut) and ev.method == "append" and ev.args and same(ev.args[0], credit) for ev, _ in body):
+            raise AnalysisError(f"{fq}: the credits of a chain are collected in a list and added to the accumulators "
+                                f"after the walk; this bookkeeping is not decided")
         run.fail("TELESCOPE", f"{method}.accumulate", W(L.line), fq, "no per-feature accumulation",
                  "the chain does not add each feature's credit to that feature's accumulator")
         return
